@@ -575,8 +575,10 @@ func checkFormatBytes(c fmtBytesCase) *vk.Failure {
 	if err := json.Unmarshal(b, v2); err != nil {
 		return vk.Failf("json-second-unmarshal-error", "%s decoded from %q marshals to %s which is rejected: %v", name, quoteShort(c.Data), b, err)
 	}
-	if !reflect.DeepEqual(v1, v2) {
-		return vk.Failf("json-not-a-fixed-point", "%s decoded from %q: %+v; after Marshal/Unmarshal: %+v (JSON %s)", name, quoteShort(c.Data), v1, v2, b)
+	// fixed point, compared on the encoding (nil and empty slices are the same document)
+	b2, err := json.Marshal(v2)
+	if err != nil || string(b2) != string(b) {
+		return vk.Failf("json-not-a-fixed-point", "%s decoded from %q marshals to %s; after another Unmarshal/Marshal: %s (err=%v)", name, quoteShort(c.Data), b, b2, err)
 	}
 	return nil
 }
